@@ -213,4 +213,678 @@ theorem name_prefix_eq : ∀ (t r : Str) (x : Str), braceFree t → braceFree r 
       simp only [List.cons_append, List.cons_prefix_cons] at h
       rw [h.1, ih r x (fun c hc => ht c (by simp [hc])) (fun c hc => hr c (by simp [hc])) h.2]
 
+theorem fieldAt_append (ts : List Str) (t s : Str) :
+    fieldAt (ts ++ [t]) s = (fieldAt ts s).or (if (t ++ [125]).isPrefixOf s then some t else none) := by
+  simp only [fieldAt, List.find?_append, List.find?_cons, List.find?_nil]
+  split <;> simp_all
+
+/-- one token replacement turns the marking for `ts` into the marking for `ts ++ [t]` -/
+theorem replace_mark (ts : List Str) (t : Str) (hts : ∀ r ∈ ts, braceFree r) (ht : braceFree t) (hne : t ≠ [])
+    (hnot : t ∉ ts) : ∀ (n : Nat) (d : Str), d.length ≤ n → replace (mark ts d) (pat t) t = mark (ts ++ [t]) d := by
+  intro n
+  induction n with
+  | zero =>
+    intro d h
+    have : d = [] := List.eq_nil_of_length_eq_zero (by omega)
+    subst this
+    simp [mark_nil, replace_nil]
+  | succ n ih =>
+    intro d h
+    cases d with
+    | nil => simp [mark_nil, replace_nil]
+    | cons c rest =>
+      have hrest : rest.length ≤ n := by simp only [List.length_cons] at h; omega
+      by_cases h1 : c = 123
+      · subst h1
+        cases hf : fieldAt ts rest with
+        | some r =>
+          obtain ⟨hr, s', hs⟩ := fieldAt_some hf
+          subst hs
+          have hf' : fieldAt (ts ++ [t]) (r ++ 125 :: s') = some r := by rw [fieldAt_append, hf]; rfl
+          rw [mark_brace_some ts r s' hf, mark_brace_some (ts ++ [t]) r s' hf']
+          have hrne : t ≠ r := fun e => hnot (e ▸ hr)
+          have hbr := hts r hr
+          simp only [List.cons_append]
+          rw [replace_cons_nomatch]
+          · have : r ++ 125 :: mark ts s' = (r ++ [125]) ++ mark ts s' := by simp
+            rw [this, replace_append_ne _ _ _ _ (by
+              intro c hc
+              simp only [List.mem_append, List.mem_singleton] at hc
+              rcases hc with hc | hc
+              · exact (hbr c hc).1
+              · omega)]
+            rw [ih s' (by simp only [List.length_append, List.length_cons] at hrest; omega)]
+            simp
+          · intro hp
+            simp only [pat, List.cons_append, List.cons_prefix_cons, true_and] at hp
+            exact hrne (name_prefix_eq t r _ ht hbr hp)
+        | none =>
+          rw [mark_brace_none ts rest hf]
+          -- the first of the two braces cannot start a match: the next character is a brace, `t` starts otherwise
+          rw [replace_cons_nomatch]
+          · by_cases hp : (t ++ [125]) <+: rest
+            · obtain ⟨s', hs⟩ := hp
+              have hs2 : rest = t ++ 125 :: s' := by rw [← hs]; simp
+              subst hs2
+              have hf' : fieldAt (ts ++ [t]) (t ++ 125 :: s') = some t := by
+                rw [fieldAt_append, hf]
+                simp
+              rw [mark_brace_some (ts ++ [t]) t s' hf', mark_append_free ts t _ ht, mark_cons_close]
+              simp only [List.cons_append]
+              have : 123 :: (t ++ 125 :: 125 :: mark ts s') = pat t ++ (125 :: mark ts s') := by simp [pat]
+              rw [this, replace_match, replace_cons_ne 125 (by decide),
+                ih s' (by simp only [List.length_append, List.length_cons] at hrest; omega)]
+            · have hf' : fieldAt (ts ++ [t]) rest = none := by
+                rw [fieldAt_append, hf]
+                simp only [List.isPrefixOf_iff_prefix, hp, if_false]
+                rfl
+              rw [mark_brace_none (ts ++ [t]) rest hf', replace_cons_nomatch, ih rest hrest]
+              intro hq
+              simp only [pat, List.cons_append, List.cons_prefix_cons, true_and] at hq
+              exact hp (prefix_of_mark ts t rest ht hq)
+          · intro hq
+            cases t with
+            | nil => exact hne rfl
+            | cons a t' =>
+              have := ht a (by simp)
+              simp only [pat, List.cons_append, List.cons_prefix_cons, true_and] at hq
+              omega
+      · by_cases h2 : c = 125
+        · subst h2
+          rw [mark_cons_close, mark_cons_close, replace_cons_ne 125 (by decide), replace_cons_ne 125 (by decide),
+            ih rest hrest]
+        · rw [mark_cons_other ts c h1 h2, mark_cons_other (ts ++ [t]) c h1 h2, replace_cons_ne c h1, ih rest hrest]
+
+theorem fieldAt_nil (s : Str) : fieldAt [] s = none := rfl
+
+theorem mark_nil_refs (d : Str) :
+    mark [] d = replaceChar 125 [125, 125] (replaceChar 123 [123, 123] d) := by
+  induction d with
+  | nil => simp [mark_nil, replaceChar]
+  | cons c d ih =>
+    by_cases h1 : c = 123
+    · subst h1
+      rw [mark_brace_none [] d (fieldAt_nil d), ih]
+      simp [replaceChar]
+    · by_cases h2 : c = 125
+      · subst h2
+        rw [mark_cons_close, ih]
+        simp [replaceChar]
+      · rw [mark_cons_other [] c h1 h2, ih]
+        simp [replaceChar, h1, h2]
+
+/-- all token replacements of `sanitize` -/
+theorem foldl_replace_mark (d : Str) : ∀ (refs ts : List Str), (∀ r ∈ ts ++ refs, braceFree r ∧ r ≠ []) → (ts ++ refs).Nodup →
+    refs.foldl (fun v t => replace v ([123] ++ t ++ [125]) t) (mark ts d) = mark (ts ++ refs) d := by
+  intro refs
+  induction refs with
+  | nil => intro ts _ _; simp
+  | cons t rs ih =>
+    intro ts hall hnd
+    simp only [List.foldl_cons]
+    have ht := hall t (by simp)
+    have hnot : t ∉ ts := by
+      intro hm
+      have := List.nodup_append.mp hnd
+      exact this.2.2 t hm t (by simp) rfl
+    have e : [123] ++ t ++ [125] = pat t := by simp [pat]
+    rw [e, replace_mark ts t (fun r hr => (hall r (by simp [hr])).1) ht.1 ht.2 hnot d.length d (Nat.le_refl _)]
+    have e2 : ts ++ t :: rs = (ts ++ [t]) ++ rs := by simp
+    rw [e2]
+    exact ih (ts ++ [t]) (by rw [← e2]; exact hall) (by rw [← e2]; exact hnd)
+
+/-- the JSON escapes and the apostrophe escape, applied last by `sanitize` -/
+def esc (s : Str) : Str := replaceChar 39 [92, 39] (jsonEscape s)
+
+theorem esc_append (a b : Str) : esc (a ++ b) = esc a ++ esc b := by simp [esc, jsonEscape, replaceChar]
+theorem esc_cons (c : Nat) (s : Str) : esc (c :: s) = esc [c] ++ esc s := esc_append [c] s
+theorem esc_nil : esc [] = [] := rfl
+
+theorem sanitize_eq_mark (d : Str) (refs : List Str) (hall : ∀ r ∈ refs, braceFree r ∧ r ≠ []) (hnd : refs.Nodup) :
+    sanitize d refs = esc (mark refs d) := by
+  unfold sanitize esc
+  simp only []
+  rw [← mark_nil_refs, foldl_replace_mark d refs [] (by simpa using hall) (by simpa using hnd)]
+  simp
+
+/-! ### the literal reader `pStr` on emitted text -/
+
+theorem prepend_nil (x : Option (Str × Str)) : prepend [] x = x := by
+  cases x <;> simp [prepend]
+
+theorem prepend_prepend (a b : Str) (x : Option (Str × Str)) : prepend a (prepend b x) = prepend (a ++ b) x := by
+  cases x <;> simp [prepend]
+
+theorem isNameChar_facts {c : Nat} (h : isNameChar c = true) :
+    c ≠ 123 ∧ c ≠ 125 ∧ c ≠ 39 ∧ c ≠ 34 ∧ c ≠ 92 ∧ 32 ≤ c ∧ c ≠ 10 ∧ c ≠ 13 := by
+  simp only [isNameChar, Bool.or_eq_true, Bool.and_eq_true, decide_eq_true_eq] at h
+  omega
+
+theorem esc_char_other {c : Nat} (h34 : c ≠ 34) (h92 : c ≠ 92) (h39 : c ≠ 39) (h32 : 32 ≤ c) : esc [c] = [c] := by
+  have : c ≠ 10 ∧ c ≠ 13 ∧ c ≠ 9 ∧ c ≠ 8 ∧ c ≠ 12 ∧ ¬ c < 32 := by omega
+  simp [esc, jsonEscape, jsonEscapeChar, replaceChar, *]
+
+theorem esc_name (r : Str) (h : ∀ c ∈ r, isNameChar c = true) : esc r = r := by
+  induction r with
+  | nil => rfl
+  | cons c r ih =>
+    have f := isNameChar_facts (h c (by simp))
+    rw [esc_cons, ih (fun x hx => h x (by simp [hx])), esc_char_other f.2.2.2.1 f.2.2.2.2.1 f.2.2.1 f.2.2.2.2.2.1]
+    rfl
+
+theorem esc_open : esc [123] = [123] := by decide
+theorem esc_close : esc [125] = [125] := by decide
+theorem esc_cons_open (s : Str) : esc (123 :: s) = 123 :: esc s := by rw [esc_cons, esc_open]; rfl
+theorem esc_cons_close (s : Str) : esc (125 :: s) = 125 :: esc s := by rw [esc_cons, esc_close]; rfl
+
+/-- one escaped character of the definition is read back as that character (f-string: `c` is not a brace;
+plain literal: any `c`) -/
+theorem pStr_esc_char (env : Option (Str → Option Str)) (c : Nat) (hb : env.isSome → c ≠ 123 ∧ c ≠ 125) (tl : Str) :
+    pStr env 39 .norm (esc [c] ++ tl) = prepend [c] (pStr env 39 .norm tl) := by
+  have hb1 : ¬ (env.isSome = true ∧ c = 123) := fun h => (hb h.1).1 h.2
+  have hb2 : ¬ (env.isSome = true ∧ c = 125) := fun h => (hb h.1).2 h.2
+  by_cases h3 : c = 39
+  · subst h3; simp [esc, replaceChar, jsonEscape, jsonEscapeChar, pStr]
+  by_cases h4 : c = 34
+  · subst h4; simp [esc, replaceChar, jsonEscape, jsonEscapeChar, pStr]
+  by_cases h5 : c = 92
+  · subst h5; simp [esc, replaceChar, jsonEscape, jsonEscapeChar, pStr]
+  by_cases h6 : c = 10
+  · subst h6; simp [esc, replaceChar, jsonEscape, jsonEscapeChar, pStr]
+  by_cases h7 : c = 13
+  · subst h7; simp [esc, replaceChar, jsonEscape, jsonEscapeChar, pStr]
+  by_cases h8 : c = 9
+  · subst h8; simp [esc, replaceChar, jsonEscape, jsonEscapeChar, pStr]
+  by_cases h9 : c = 8
+  · subst h9; simp [esc, replaceChar, jsonEscape, jsonEscapeChar, pStr]
+  by_cases h10 : c = 12
+  · subst h10; simp [esc, replaceChar, jsonEscape, jsonEscapeChar, pStr]
+  by_cases h11 : c < 32
+  · have a1 := hexVal_hexDigit (c / 16) (by omega)
+    have a2 := hexVal_hexDigit (c % 16) (by omega)
+    have b1 := hexDigit_ne39 (c / 16) (by omega)
+    have b2 := hexDigit_ne39 (c % 16) (by omega)
+    have e : c / 16 * 16 + c % 16 = c := by omega
+    have h48 : hexVal 48 = some 0 := by decide
+    simp [esc, replaceChar, jsonEscape, jsonEscapeChar, pStr, h3, h4, h5, h6, h7, h8, h9, h10, h11, a1, a2, b1, b2, h48, e]
+  · rw [esc_char_other h4 h5 h3 (by omega)]
+    simp [pStr, h3, h5, h6, h7, hb1, hb2]
+
+theorem pStr_open (e : Str → Option Str) (tl : Str) :
+    pStr (some e) 39 .norm (123 :: 123 :: tl) = prepend [123] (pStr (some e) 39 .norm tl) := by simp [pStr]
+theorem pStr_close (e : Str → Option Str) (tl : Str) :
+    pStr (some e) 39 .norm (125 :: 125 :: tl) = prepend [125] (pStr (some e) 39 .norm tl) := by simp [pStr]
+
+theorem validRefAux_facts : ∀ (r : Str) (b : Bool), validRefAux b r = true →
+    (∀ c ∈ r, isNameChar c = true) ∧ (b = true → r ≠ []) := by
+  intro r
+  induction r with
+  | nil => intro b h; cases b <;> simp_all [validRefAux]
+  | cons c r ih =>
+    intro b h
+    cases b with
+    | true =>
+      simp only [validRefAux, Bool.and_eq_true] at h
+      have := ih false h.2
+      refine ⟨?_, by simp⟩
+      intro x hx
+      simp only [List.mem_cons] at hx
+      rcases hx with hx | hx
+      · subst hx
+        have := h.1
+        simp only [isIdentStart, Bool.or_eq_true, Bool.and_eq_true, decide_eq_true_eq] at this
+        simp only [isNameChar, Bool.or_eq_true, Bool.and_eq_true, decide_eq_true_eq]
+        omega
+      · exact this.1 x hx
+    | false =>
+      simp only [validRefAux] at h
+      refine ⟨?_, by simp⟩
+      intro x hx
+      simp only [List.mem_cons] at hx
+      by_cases h46 : c = 46
+      · subst h46
+        simp only [if_true] at h
+        rcases hx with hx | hx
+        · subst hx; decide
+        · exact (ih true h).1 x hx
+      · simp only [h46, if_false, Bool.and_eq_true] at h
+        rcases hx with hx | hx
+        · subst hx
+          have := h.1
+          simp only [isIdentChar, isIdentStart, Bool.or_eq_true, Bool.and_eq_true, decide_eq_true_eq] at this
+          simp only [isNameChar, Bool.or_eq_true, Bool.and_eq_true, decide_eq_true_eq]
+          omega
+        · exact (ih false h.2).1 x hx
+
+theorem validRef_facts {r : Str} (h : validRef r = true) : (∀ c ∈ r, isNameChar c = true) ∧ r ≠ [] := by
+  have := validRefAux_facts r true h
+  exact ⟨this.1, this.2 rfl⟩
+
+theorem validRef_braceFree {r : Str} (h : validRef r = true) : braceFree r ∧ r ≠ [] := by
+  have := validRef_facts h
+  exact ⟨fun c hc => ⟨(isNameChar_facts (this.1 c hc)).1, (isNameChar_facts (this.1 c hc)).2.1⟩, this.2⟩
+
+theorem pStr_field_read (e : Str → Option Str) (tl : Str) : ∀ (r acc : Str), (∀ c ∈ r, isNameChar c = true) →
+    pStr (some e) 39 (.field acc) (r ++ 125 :: tl) =
+      fieldValue e (acc.reverse ++ r) (pStr (some e) 39 .norm tl) := by
+  intro r
+  induction r with
+  | nil => intro acc _; simp [pStr]
+  | cons c r ih =>
+    intro acc h
+    have f := isNameChar_facts (h c (by simp))
+    simp only [List.cons_append, pStr, f.2.1, if_false, h c (by simp), if_true]
+    rw [ih (c :: acc) (fun x hx => h x (by simp [hx]))]
+    simp
+
+/-- a replacement field `{r}` is read as the value bound to `r` -/
+theorem pStr_field (e : Str → Option Str) (r tl : Str) (hr : validRef r = true) :
+    pStr (some e) 39 .norm (123 :: (r ++ 125 :: tl)) = (e r).bind fun v => prepend v (pStr (some e) 39 .norm tl) := by
+  have f := validRef_facts hr
+  cases r with
+  | nil => exact absurd rfl f.2
+  | cons a r' =>
+    have fa := isNameChar_facts (f.1 a (by simp))
+    simp only [pStr, List.cons_append, Option.isSome_some, true_and, if_true, fa.1, if_false, f.1 a (by simp)]
+    simp only [show (123 : Nat) ≠ 39 by decide, show ¬ ((123 : Nat) = 10 ∨ (123 : Nat) = 13) by decide,
+      show (123 : Nat) ≠ 92 by decide, if_false]
+    rw [pStr_field_read e tl r' [a] (fun x hx => f.1 x (by simp [hx]))]
+    simp [fieldValue, hr]
+
+theorem subst_nil (e : Str → Option Str) (refs : List Str) : subst e refs [] = some [] := by
+  simp [subst, scan_nil, substItems]
+theorem subst_cons_ne (e : Str → Option Str) (refs : List Str) (c : Nat) (hc : c ≠ 123) (s : Str) :
+    subst e refs (c :: s) = (subst e refs s).map (c :: ·) := by
+  simp [subst, scan_cons_ne refs c hc, substItems]
+theorem subst_brace_none (e : Str → Option Str) (refs : List Str) (s : Str) (h : fieldAt refs s = none) :
+    subst e refs (123 :: s) = (subst e refs s).map (123 :: ·) := by
+  simp [subst, scan_brace_none refs s h, substItems]
+theorem subst_brace_some (e : Str → Option Str) (refs : List Str) (r s' : Str) (h : fieldAt refs (r ++ 125 :: s') = some r) :
+    subst e refs (123 :: (r ++ 125 :: s')) = (e r).bind fun v => (subst e refs s').map (v ++ ·) := by
+  simp [subst, scan_brace_some refs r s' h, substItems]
+
+theorem prepend_bind (c : Str) (o : Option Str) (X : Option (Str × Str)) :
+    prepend c (o.bind fun v => prepend v X) = (o.map (c ++ ·)).bind fun v => prepend v X := by
+  cases o <;> cases X <;> simp [prepend]
+
+/-- reading the escaped marking of a definition back gives `subst` -/
+theorem pStr_mark (e : Str → Option Str) (refs : List Str) (hall : ∀ r ∈ refs, validRef r = true) (tl : Str) :
+    ∀ (n : Nat) (d : Str), d.length ≤ n →
+      pStr (some e) 39 .norm (esc (mark refs d) ++ tl) =
+        (subst e refs d).bind fun v => prepend v (pStr (some e) 39 .norm tl) := by
+  intro n
+  induction n with
+  | zero =>
+    intro d h
+    have : d = [] := List.eq_nil_of_length_eq_zero (by omega)
+    subst this
+    simp [mark_nil, esc_nil, subst_nil, prepend_nil]
+  | succ n ih =>
+    intro d h
+    cases d with
+    | nil => simp [mark_nil, esc_nil, subst_nil, prepend_nil]
+    | cons c rest =>
+      have hrest : rest.length ≤ n := by simp only [List.length_cons] at h; omega
+      by_cases h1 : c = 123
+      · subst h1
+        cases hf : fieldAt refs rest with
+        | some r =>
+          obtain ⟨hr, s', hs⟩ := fieldAt_some hf
+          subst hs
+          have hv := hall r hr
+          have hn := (validRef_facts hv).1
+          rw [mark_brace_some refs r s' hf, subst_brace_some e refs r s' hf]
+          have e1 : esc (123 :: r ++ 125 :: mark refs s') = 123 :: (r ++ 125 :: esc (mark refs s')) := by
+            simp only [List.cons_append]
+            rw [esc_cons_open, esc_append, esc_cons_close, esc_name r hn]
+          rw [e1]
+          simp only [List.cons_append, List.append_assoc]
+          rw [pStr_field e r _ hv, ih s' (by simp only [List.length_append, List.length_cons] at hrest; omega)]
+          cases e r with
+          | none => rfl
+          | some v => simp only [Option.bind_some]; exact prepend_bind v _ _
+        | none =>
+          rw [mark_brace_none refs rest hf, subst_brace_none e refs rest hf]
+          have e1 : esc (123 :: 123 :: mark refs rest) = 123 :: 123 :: esc (mark refs rest) := by
+            rw [esc_cons_open, esc_cons_open]
+          rw [e1]
+          simp only [List.cons_append]
+          rw [pStr_open, ih rest hrest]
+          exact prepend_bind [123] _ _
+      · by_cases h2 : c = 125
+        · subst h2
+          rw [mark_cons_close, subst_cons_ne e refs 125 (by decide)]
+          have e1 : esc (125 :: 125 :: mark refs rest) = 125 :: 125 :: esc (mark refs rest) := by
+            rw [esc_cons_close, esc_cons_close]
+          rw [e1]
+          simp only [List.cons_append]
+          rw [pStr_close, ih rest hrest]
+          exact prepend_bind [125] _ _
+        · rw [mark_cons_other refs c h1 h2, subst_cons_ne e refs c h1, esc_cons, List.append_assoc,
+            pStr_esc_char (some e) c (fun _ => ⟨h1, h2⟩), ih rest hrest]
+          exact prepend_bind [c] _ _
+
+theorem pStr_end (env : Option (Str → Option Str)) (q : Nat) (tl : Str) : pStr env q .norm (q :: tl) = some ([], tl) := by
+  simp [pStr]
+
+/-! ### plain literals: `'…'` (DefaultWriter), `"…"` (dictionary strings), json.dumps items -/
+
+/-- what `sanitize · []` does to the braces -/
+def doubleBraces (d : Str) : Str := replaceChar 125 [125, 125] (replaceChar 123 [123, 123] d)
+
+theorem sanitize_nil_esc (d : Str) : sanitize d [] = esc (doubleBraces d) := by
+  simp [sanitize, esc, doubleBraces]
+
+theorem pStr_plain_esc (tl : Str) : ∀ x : Str, pStr none 39 .norm (esc x ++ tl) = prepend x (pStr none 39 .norm tl) := by
+  intro x
+  induction x with
+  | nil => simp [esc_nil, prepend_nil]
+  | cons c x ih =>
+    rw [esc_cons, List.append_assoc, pStr_esc_char none c (by simp), ih, prepend_prepend]
+    rfl
+
+theorem doubleBraces_free (d : Str) (h : braceFree d) : doubleBraces d = d := by
+  induction d with
+  | nil => rfl
+  | cons c d ih =>
+    have := h c (by simp)
+    have ih' := ih (fun x hx => h x (by simp [hx]))
+    simp only [doubleBraces, replaceChar] at ih' ⊢
+    simp [this.1, this.2, ih']
+
+theorem pStr_encDQ (c : Nat) (h10 : c ≠ 10) (h13 : c ≠ 13) (tl : Str) :
+    pStr none 34 .norm (encDQ c ++ tl) = prepend [c] (pStr none 34 .norm tl) := by
+  by_cases h1 : c = 92
+  · subst h1; simp [encDQ, replaceChar, pStr]
+  by_cases h2 : c = 34
+  · subst h2; simp [encDQ, replaceChar, pStr]
+  simp [encDQ, replaceChar, pStr, h1, h2, h10, h13]
+
+theorem pStr_flatMap_encDQ (tl : Str) : ∀ e : Str, (∀ c ∈ e, c ≠ 10 ∧ c ≠ 13) →
+    pStr none 34 .norm (e.flatMap encDQ ++ 34 :: tl) = some (e, tl) := by
+  intro e
+  induction e with
+  | nil => intro _; simp [pStr]
+  | cons c e ih =>
+    intro h
+    have hc := h c (by simp)
+    simp only [List.flatMap_cons, List.append_assoc]
+    rw [pStr_encDQ c hc.1 hc.2, ih (fun x hx => h x (by simp [hx]))]
+    simp [prepend]
+
+theorem hex4_value (c : Nat) (h : c < 65536) :
+    ((c / 4096 % 16 * 16 + c / 256 % 16) * 16 + c / 16 % 16) * 16 + c % 16 = c := by omega
+
+theorem pStr_jsonAscii (c : Nat) (h : c < 65536) (tl : Str) :
+    pStr none 34 .norm (jsonAsciiChar c ++ tl) = prepend [c] (pStr none 34 .norm tl) := by
+  by_cases h4 : c = 34
+  · subst h4; simp [jsonAsciiChar, pStr]
+  by_cases h5 : c = 92
+  · subst h5; simp [jsonAsciiChar, pStr]
+  by_cases h6 : c = 10
+  · subst h6; simp [jsonAsciiChar, pStr]
+  by_cases h7 : c = 13
+  · subst h7; simp [jsonAsciiChar, pStr]
+  by_cases h8 : c = 9
+  · subst h8; simp [jsonAsciiChar, pStr]
+  by_cases h9 : c = 8
+  · subst h9; simp [jsonAsciiChar, pStr]
+  by_cases h10 : c = 12
+  · subst h10; simp [jsonAsciiChar, pStr]
+  by_cases h11 : 32 ≤ c ∧ c ≤ 126
+  · simp [jsonAsciiChar, pStr, h4, h5, h6, h7, h8, h9, h10, h11]
+  · have a1 := hexVal_hexDigit (c / 4096 % 16) (by omega)
+    have a2 := hexVal_hexDigit (c / 256 % 16) (by omega)
+    have a3 := hexVal_hexDigit (c / 16 % 16) (by omega)
+    have a4 := hexVal_hexDigit (c % 16) (by omega)
+    have e := hex4_value c h
+    simp [jsonAsciiChar, hex4, pStr, h4, h5, h6, h7, h8, h9, h10, h11, h, a1, a2, a3, a4, e]
+
+theorem pStr_jsonDumps_body (tl : Str) : ∀ x : Str, (∀ c ∈ x, c < 65536) →
+    pStr none 34 .norm (x.flatMap jsonAsciiChar ++ 34 :: tl) = some (x, tl) := by
+  intro x
+  induction x with
+  | nil => intro _; simp [pStr]
+  | cons c x ih =>
+    intro h
+    simp only [List.flatMap_cons, List.append_assoc]
+    rw [pStr_jsonAscii c (h c (by simp)), ih (fun y hy => h y (by simp [hy]))]
+    simp [prepend]
+
+theorem pJsonItems_join (tl : Str) : ∀ (xs : List Str) (fuel : Nat), xs ≠ [] → xs.length ≤ fuel →
+    (∀ x ∈ xs, ∀ c ∈ x, c < 65536) →
+    pJsonItems fuel (join [44, 32] (xs.map jsonDumps) ++ 93 :: tl) = some (xs, tl) := by
+  intro xs
+  induction xs with
+  | nil => intro _ h; exact absurd rfl h
+  | cons x rest ih =>
+    intro fuel _ hf hall
+    cases fuel with
+    | zero => simp at hf
+    | succ fuel =>
+      cases rest with
+      | nil =>
+        simp only [List.map_cons, List.map_nil, join, jsonDumps, List.cons_append, List.nil_append, List.append_assoc,
+          pJsonItems]
+        rw [pStr_jsonDumps_body _ x (hall x (by simp))]
+        rfl
+      | cons y r =>
+        have := ih fuel (by simp) (by simp only [List.length_cons] at hf ⊢; omega) (fun z hz => hall z (by simp [hz]))
+        simp only [List.map_cons, join, jsonDumps, List.cons_append, List.nil_append, List.append_assoc,
+          pJsonItems] at this ⊢
+        rw [pStr_jsonDumps_body _ x (hall x (by simp))]
+        simp only [this]
+        rfl
+
+/-! ### raw literals -/
+
+/-- the entry can be written as `r'…'` with its apostrophes escaped: no apostrophe is preceded by an odd number of
+backslashes and the entry does not end in an odd number of backslashes (`p` = an unpaired backslash precedes) -/
+def rawOKAux : Bool → Str → Bool
+  | p, [] => !p
+  | p, c :: rest =>
+    if c = 39 then !p && rawOKAux false rest
+    else if c = 92 then rawOKAux (!p) rest
+    else rawOKAux false rest
+
+def rawOK (e : Str) : Bool := rawOKAux false e
+
+theorem pRaw_entry (tl : Str) : ∀ (e : Str) (p : Bool), rawOKAux p e = true → (∀ c ∈ e, c ≠ 10 ∧ c ≠ 13) →
+    pRaw 39 p (replaceChar 39 [92, 39] e ++ 39 :: tl) = some (replaceChar 39 [92, 39] e, tl) := by
+  intro e
+  induction e with
+  | nil =>
+    intro p h _
+    cases p <;> simp_all [rawOKAux, replaceChar, pRaw]
+  | cons c e ih =>
+    intro p h hn
+    have hc := hn c (by simp)
+    have hn' : ∀ x ∈ e, x ≠ 10 ∧ x ≠ 13 := fun x hx => hn x (by simp [hx])
+    have ih' := fun p h => ih p h hn'
+    simp only [replaceChar] at ih' ⊢
+    by_cases h1 : c = 39
+    · subst h1
+      simp only [rawOKAux, if_true, Bool.and_eq_true, Bool.not_eq_true'] at h
+      have hp := h.1
+      subst hp
+      simp [pRaw, ih' false h.2, prepend]
+    · by_cases h2 : c = 92
+      · subst h2
+        simp only [rawOKAux] at h
+        cases p with
+        | true => simp [pRaw, ih' false (by simpa using h), prepend]
+        | false => simp [pRaw, ih' true (by simpa using h), prepend]
+      · simp only [rawOKAux, h1, h2, if_false] at h
+        cases p with
+        | true => simp [pRaw, h1, h2, hc.1, hc.2, ih' false h, prepend]
+        | false => simp [pRaw, h1, h2, hc.1, hc.2, ih' false h, prepend]
+
+theorem replaceChar_absent (q : Nat) (new e : Str) (h : ∀ c ∈ e, c ≠ q) : replaceChar q new e = e := by
+  induction e with
+  | nil => rfl
+  | cons c e ih =>
+    have hc := h c (by simp)
+    have := ih (fun x hx => h x (by simp [hx]))
+    simp only [replaceChar] at this ⊢
+    simp [hc, this]
+
+/-! ### dictionary entries -/
+
+def valOf : DictVal → Val
+  | .scalar s => .str s
+  | .list xs => .list xs
+
+def noNewline (s : Str) : Prop := ∀ c ∈ s, c ≠ 10 ∧ c ≠ 13
+
+/-- the entries whose emitted text the evaluator reads back: string-typed key, and a string-typed scalar value or
+a sequence value of characters below U+10000; no raw line break -/
+def entryOK (keyType valueType : Str) (kv : Str × DictVal) : Prop :=
+  toPythonType keyType = tString ∧ noNewline kv.1 ∧
+  match kv.2 with
+  | .scalar s => toPythonType valueType = tString ∧ noNewline s
+  | .list xs => ∀ x ∈ xs, ∀ c ∈ x, c < 65536
+
+theorem pValue_string (stop : Nat) (s tl : Str) (hn : noNewline s) :
+    pValue stop (createEntryString s ++ tl) = some (.str s, tl) := by
+  rw [createEntry_eq]
+  simp only [List.cons_append, List.nil_append, List.append_assoc, pValue]
+  rw [pStr_flatMap_encDQ tl s hn]
+  rfl
+
+theorem join_length_ge (sep : Str) : ∀ l : List Str, (∀ x ∈ l, 1 ≤ x.length) → l.length ≤ (join sep l).length := by
+  intro l
+  induction l with
+  | nil => intro _; simp [join]
+  | cons x r ih =>
+    intro h
+    cases r with
+    | nil => have := h x (by simp); simp [join]; omega
+    | cons y r' =>
+      have := ih (fun z hz => h z (by simp [hz]))
+      have hx := h x (by simp)
+      simp only [join, List.length_append, List.length_cons] at this ⊢
+      omega
+
+theorem pValue_list (stop : Nat) (vt : Str) (xs : List Str) (tl : Str) (h : ∀ x ∈ xs, ∀ c ∈ x, c < 65536) :
+    pValue stop (dictValue vt (.list xs) ++ tl) = some (.list xs, tl) := by
+  cases xs with
+  | nil => simp [dictValue, join, pValue]
+  | cons x r =>
+    have hl : (x :: r).length ≤ (join [44, 32] ((x :: r).map jsonDumps)).length := by
+      have := join_length_ge [44, 32] ((x :: r).map jsonDumps) (by
+        intro y hy
+        obtain ⟨z, _, rfl⟩ := List.mem_map.mp hy
+        simp [jsonDumps])
+      simpa using this
+    have hd : ∃ w, join [44, 32] ((x :: r).map jsonDumps) = 34 :: w := by
+      cases r with
+      | nil => exact ⟨x.flatMap jsonAsciiChar ++ [34], by simp [join, jsonDumps]⟩
+      | cons y r' =>
+        exact ⟨x.flatMap jsonAsciiChar ++ [34] ++ [44, 32] ++ join [44, 32] ((y :: r').map jsonDumps),
+          by simp [join, jsonDumps]⟩
+    obtain ⟨w, hw⟩ := hd
+    have key := pJsonItems_join tl (x :: r) ((34 :: (w ++ 93 :: tl)).length + 1)
+      (by simp) (by rw [hw] at hl; simp only [List.length_cons, List.length_append] at hl ⊢; omega) h
+    rw [hw] at key
+    simp only [dictValue, List.cons_append, List.nil_append, List.append_assoc]
+    rw [hw]
+    simp only [List.cons_append, pValue] at key ⊢
+    rw [key]
+    rfl
+
+theorem pDictEntry_entry (kt vt : Str) (kv : Str × DictVal) (tl : Str) (h : entryOK kt vt kv) :
+    pDictEntry (dictEntry kt vt kv ++ tl) = some ((.str kv.1, valOf kv.2), tl) := by
+  obtain ⟨k, v⟩ := kv
+  obtain ⟨hk, hkn, hv⟩ := h
+  simp only [dictEntry, createEntry, hk, if_true, List.cons_append, List.nil_append, List.append_assoc, pDictEntry]
+  rw [pValue_string 44 k _ hkn]
+  simp only []
+  cases v with
+  | scalar s =>
+    simp only [] at hv
+    simp only [dictValue, createEntry, hv.1, if_true]
+    rw [pValue_string 41 s _ hv.2]
+    rfl
+  | list xs =>
+    simp only [] at hv
+    rw [pValue_list 41 vt xs _ hv]
+    rfl
+
+theorem dropWhile_blanks (n : Nat) (x : Str) (hx : x.head? ≠ some 32) :
+    (List.replicate n 32 ++ x).dropWhile (· = 32) = x := by
+  induction n with
+  | zero =>
+    cases x with
+    | nil => rfl
+    | cons c x => simp at hx; simp [List.dropWhile, hx]
+  | succ n ih => simp [List.replicate_succ, List.dropWhile, ih]
+
+theorem afterEntry_sep (kv : Val × Val) (name x : Str) (next : Str → Option (List (Val × Val)))
+    (hx : x.head? ≠ some 32) : afterEntry kv (dictSep name ++ x) next = (next x).map (kv :: ·) := by
+  simp only [dictSep, List.cons_append, List.nil_append, afterEntry]
+  rw [dropWhile_blanks _ _ hx]
+
+theorem join_dictEntry_head (sep kt vt : Str) (e : Str × DictVal) (r : List (Str × DictVal)) (tl : Str) :
+    (join sep ((e :: r).map (dictEntry kt vt)) ++ tl).head? = some 40 := by
+  cases r <;> simp [join, dictEntry]
+
+theorem pDictEntries_join (name kt vt : Str) : ∀ (es : List (Str × DictVal)) (fuel : Nat), es ≠ [] → es.length ≤ fuel →
+    (∀ e ∈ es, entryOK kt vt e) →
+    pDictEntries fuel (join (dictSep name) (es.map (dictEntry kt vt)) ++ [93, 41]) =
+      some (es.map fun kv => (.str kv.1, valOf kv.2)) := by
+  intro es
+  induction es with
+  | nil => intro _ h; exact absurd rfl h
+  | cons e r ih =>
+    intro fuel _ hf hall
+    cases fuel with
+    | zero => simp at hf
+    | succ fuel =>
+      cases r with
+      | nil =>
+        simp only [List.map_cons, List.map_nil, join, pDictEntries]
+        rw [pDictEntry_entry kt vt e _ (hall e (by simp))]
+        rfl
+      | cons e2 r' =>
+        have := ih fuel (by simp) (by simp only [List.length_cons] at hf ⊢; omega) (fun z hz => hall z (by simp [hz]))
+        simp only [List.map_cons, join, List.append_assoc, pDictEntries] at this ⊢
+        rw [pDictEntry_entry kt vt e _ (hall e (by simp))]
+        simp only []
+        rw [afterEntry_sep _ _ _ _ (by
+          have := join_dictEntry_head (dictSep name) kt vt e2 r' [93, 41]
+          simp only [List.map_cons] at this
+          rw [this]; decide)]
+        rw [this]
+        rfl
+
+/-! ### whole definitions -/
+
+theorem takeWhile_name (name r : Str) (h : ∀ c ∈ name, isIdentChar c = true) :
+    (name ++ 32 :: r).takeWhile isIdentChar = name := by
+  induction name with
+  | nil => simp [List.takeWhile, isIdentChar, isIdentStart]
+  | cons c n ih => simp [List.takeWhile, h c (by simp), ih (fun x hx => h x (by simp [hx]))]
+
+theorem evalAssign_name (env : Str → Option Str) (name rhs : Str) (h : ∀ c ∈ name, isIdentChar c = true) :
+    evalAssign env (name ++ 32 :: 61 :: 32 :: rhs) = (evalRhs env rhs).map fun v => (name, v) := by
+  simp only [evalAssign, takeWhile_name name _ h, List.drop_left']
+
+theorem evalDef_name (env : Str → Option Str) (name rhs : Str) (h : ∀ c ∈ name, isIdentChar c = true) :
+    evalDef env (name ++ 32 :: 61 :: 32 :: rhs) = (evalRhs env rhs).map fun v => (name, v) := by
+  rw [← evalAssign_name env name rhs h]
+  cases name with
+  | nil => simp [evalDef]
+  | cons c n =>
+    have hc : c ≠ 10 := by
+      intro e
+      have := h c (by simp)
+      rw [e] at this
+      exact absurd this (by decide)
+    unfold evalDef
+    split
+    · rename_i heq
+      simp only [List.cons_append, List.cons.injEq] at heq
+      exact absurd heq.1 hc
+    · rfl
+
 end RTV.ResGen
